@@ -472,17 +472,25 @@ def replay(w):
             t = np.arange(n) / sr
             x = amp * np.cos(2 * np.pi * f * t + ph0)
             X = np.repeat(x[:, None], ncol, axis=1) * (np.arange(1, ncol + 1)[None, :])
+            arg = X if ncol > 1 else x
+            dt = w.get('dtype')
+            if dt:          # the same IMFs stored as integers (ADC counts) or in single precision
+                arg = np.round(arg).astype(dt) if dt.startswith('int') else arg.astype(dt)
             try:
-                IP, IF, IA = SPm.frequency_transform(X if ncol > 1 else x, sr, method)
+                IP, IF, IA = SPm.frequency_transform(arg, sr, method)
             except Exception as ex:
-                return True, 'frequency_transform(%s) raised %s: %s' % (method, type(ex).__name__, ex)
+                return True, 'frequency_transform(%s%s) raised %s: %s' % (method, ', %s input' % dt if dt else '', type(ex).__name__, ex)
+            IP, IF, IA = np.asarray(IP, float), np.asarray(IF, float), np.asarray(IA, float)
+            single = dt == 'float32'
             if not (IP.shape == IF.shape == IA.shape == (n, ncol)):
                 return True, 'output shapes %s %s %s for input [%d x %d]' % (IP.shape, IF.shape, IA.shape, n, ncol)
-            if IP.min() < 0 or IP.max() >= 2 * np.pi + 1e-12:
+            if not (np.all(np.isfinite(IP)) and np.all(np.isfinite(IF)) and np.all(np.isfinite(IA))):
+                return True, 'non-finite values in the output of frequency_transform(%s): %d in phase, %d in frequency, %d in amplitude' % (method, (~np.isfinite(IP)).sum(), (~np.isfinite(IF)).sum(), (~np.isfinite(IA)).sum())
+            if IP.min() < 0 or IP.max() >= 2 * np.pi + (1e-6 if single else 1e-12):
                 return True, 'phase outside [0, 2pi): min %.6g max %.6g' % (IP.min(), IP.max())
             un = np.unwrap(IP, axis=0)
             d = np.gradient(un, axis=0) * sr / (2 * np.pi)
-            if not np.allclose(d[3:-3], IF[3:-3], rtol=1e-6, atol=1e-6 * f):
+            if not np.allclose(d[3:-3], IF[3:-3], rtol=1e-4 if single else 1e-6, atol=(1e-4 if single else 1e-6) * f):
                 return True, 'frequency is not the sample-rate-scaled derivative of the unwrapped phase (max diff %.3g, method %s)' % (np.abs(d[3:-3] - IF[3:-3]).max(), method)
             a, b = int(0.2 * n), int(0.8 * n)
             tol = TOL[method]
@@ -493,7 +501,7 @@ def replay(w):
                 ea = np.max(np.abs(IA[a:b, col] - A)) / A
                 exp = (2 * np.pi * f * t + ph0 + np.pi / 2) % (2 * np.pi)
                 ep = stat(np.abs(np.angle(np.exp(1j * (IP[a:b, col] - exp[a:b])))))
-                if ef > tol['freq'] or ea > tol['amp'] or ep > tol['phase']:
+                if not (ef <= tol['freq'] and ea <= tol['amp'] and ep <= tol['phase']):
                     return True, 'sinusoid f=%.4g amp=%g phase=%.3g sr=%g (%s): interior errors freq %.3g (tol %.2g) amp %.3g (tol %.2g) phase %.3g rad (tol %.2g)' % (
                         f, A, ph0, sr, method, ef, tol['freq'], ea, tol['amp'], ep, tol['phase'])
             return False, 'ok'
@@ -506,7 +514,7 @@ def replay(w):
             IP, IF, IA = SPm.frequency_transform(x, sr, method)
             IP2, IF2, IA2 = SPm.frequency_transform(c * x, sr, method)
             dph = np.abs(np.angle(np.exp(1j * (IP - IP2)))).max()
-            if dph > 1e-9 or not np.allclose(IF, IF2, rtol=1e-7, atol=1e-7):
+            if not (dph <= 1e-9) or not np.allclose(IF, IF2, rtol=1e-7, atol=1e-7):
                 return True, 'rescaling the IMF by %g changes phase / frequency (method %s): max phase diff %.3g, max freq diff %.3g' % (c, method, dph, np.abs(IF - IF2).max())
             if not np.allclose(IA2, c * IA, rtol=1e-9, atol=0):
                 return True, 'amplitude does not scale with the IMF (factor %g, method %s): max rel diff %.3g' % (c, method, np.abs(IA2 / (c * IA) - 1).max())
@@ -534,7 +542,7 @@ def replay(w):
             for q in range(ncol):
                 ip1, if1, ia1 = SPm.frequency_transform(X[:, q].copy(), sr, method)
                 dph = np.abs(np.angle(np.exp(1j * (IP[:, q] - ip1[:, 0])))).max()
-                if dph > 1e-9 or not np.allclose(IF[:, q], if1[:, 0], rtol=1e-7, atol=1e-7) or not np.allclose(IA[:, q], ia1[:, 0], rtol=1e-9, atol=1e-12):
+                if not (dph <= 1e-9) or not np.allclose(IF[:, q], if1[:, 0], rtol=1e-7, atol=1e-7) or not np.allclose(IA[:, q], ia1[:, 0], rtol=1e-9, atol=1e-12):
                     return True, 'column %d of a %d-column set (method %s, %d amplitude-modulated columns of depth %g first) differs from the same IMF transformed alone: max phase diff %.3g rad, max freq diff %.3g' % (
                         q, ncol, method, w['n_am'], w['depth'], dph, np.abs(IF[:, q] - if1[:, 0]).max())
             c = w.get('c', 8.0)
@@ -542,7 +550,7 @@ def replay(w):
             Y[:, -1] *= c
             IP2, IF2, IA2 = SPm.frequency_transform(Y, sr, method)
             dph = np.abs(np.angle(np.exp(1j * (IP - IP2)))).max()
-            if dph > 1e-9 or not np.allclose(IF, IF2, rtol=1e-7, atol=1e-7):
+            if not (dph <= 1e-9) or not np.allclose(IF, IF2, rtol=1e-7, atol=1e-7):
                 return True, 'rescaling the last IMF of the set by %g changes phase / frequency (method %s): max phase diff %.3g, max freq diff %.3g' % (c, method, dph, np.abs(IF - IF2).max())
             return False, 'ok'
         if kind == 'roundtrip':
@@ -564,6 +572,18 @@ def replay(w):
             n = 512
             t = np.linspace(0, 4, n)
             x = (1 + 0.5 * np.sin(2 * np.pi * 0.5 * t)) * np.cos(2 * np.pi * 9 * t)
+            if w.get('dtype'):       # integer-typed IMF (counts): the normalised wave is that of the same values held as floats
+                xi = np.round(1e6 * x).astype(w['dtype'])
+                ref = emd.utils.amplitude_normalise(xi.astype(float)[:, None])
+                got = emd.utils.amplitude_normalise(xi[:, None].copy())
+                if not np.allclose(got, ref, rtol=1e-9, atol=1e-9):
+                    return True, 'amplitude_normalise of an %s-typed IMF differs from that of the same values as floats (max diff %.3g, result dtype %s)' % (w['dtype'], np.abs(got - ref).max(), got.dtype)
+                x = xi.astype(float)
+                a = emd.utils.amplitude_normalise(xi[:, None].copy())
+                b = emd.utils.amplitude_normalise((int(w['c']) * xi)[:, None].copy())
+                if not np.allclose(a, b, rtol=1e-9, atol=1e-9):
+                    return True, 'amplitude_normalise (%s input) is not invariant under rescaling by %d (max diff %.3g)' % (w['dtype'], int(w['c']), np.abs(a - b).max())
+                return False, 'ok'
             a = emd.utils.amplitude_normalise(x[:, None].copy())
             b = emd.utils.amplitude_normalise((w['c'] * x)[:, None].copy())
             if not np.allclose(a, b, rtol=1e-9, atol=1e-9):
@@ -595,9 +615,44 @@ def refute(tier, seed, emit):
                             emit.violation('%s:%s' % (cl, method), w, msg)
         if emit.full:
             return
-    emit.scope('scale factors 2^k (k in -6..6) and 3.7: phase and frequency unchanged, amplitude scales, for the three methods; sets of 2-4 IMFs (amplitude-modulated carriers first, then sinusoids): every column as when transformed alone, rescaling one column changes no phase / frequency; amplitude_normalise invariant')
+    # the same sinusoids stored as integers (ADC counts, amplitude 1e6) or in single precision.  nht / quad go through amplitude_normalise,
+    # which must not normalise into an integer-typed buffer; frequencies whose period is a whole number of samples are left to the float64
+    # scope (two equal samples straddling each peak are not a strict extremum: see DESIGN 10.4)
+    emit.scope('the sinusoid cases with 5, 11, 23 cycles per record stored as int64 (amplitude 1e6, all three methods) and as float32 (hilbert): same shape / range / derivative / accuracy clauses')
     for method in ('hilbert', 'nht', 'quad'):
-        for c in [2.0 ** k for k in (-6, -1, 1, 6)] + [3.7]:
+        for dt in ('int64', 'float32'):
+            if dt == 'float32' and method != 'hilbert':
+                continue
+            for sr in srs[:2]:
+                n = sr * 2 if sr < 1000 else sr
+                secs = n / sr
+                for f in (5 / secs, 11 / secs, 23 / secs):
+                    for pi_, ph0 in enumerate(phs[::2]):
+                        emit.case((method, sr, f, dt, ph0), contract='frequency_transform')
+                        w = {'kind': 'sinusoid', 'method': method, 'sr': sr, 'n': n, 'f': float(f), 'amp': 1e6 if dt == 'int64' else 10.0, 'ph0': float(ph0), 'ncol': 1 + pi_ % 2, 'dtype': dt}
+                        ok, msg = replay(w)
+                        if ok:
+                            cl = 'accuracy-on-sinusoids' if 'interior errors' in msg else 'frequency-is-derivative-of-unwrapped-phase' if 'derivative' in msg else 'shapes-and-phase-range'
+                            emit.violation('%s:%s:%s-input' % (cl, method, dt), w, msg)
+    # record lengths that are not FFT-friendly (primes, twice a prime): the outputs keep the input's shape whatever the transform length
+    emit.scope('sinusoids of 997, 1009, 2039 and 2 x 509 samples (prime / twice-prime record lengths) x {hilbert, nht, quad} x 1-2 columns: shapes, range, derivative and accuracy clauses')
+    for method in ('hilbert', 'nht', 'quad'):
+        for n in (997, 1009, 2039, 1018):
+            sr = 1000
+            emit.case((method, 'length', n), contract='frequency_transform')
+            w = {'kind': 'sinusoid', 'method': method, 'sr': sr, 'n': n, 'f': 11.3, 'amp': 1.0, 'ph0': 0.4, 'ncol': 1 + n % 2}
+            ok, msg = replay(w)
+            if ok:
+                cl = 'accuracy-on-sinusoids' if 'interior errors' in msg else 'frequency-is-derivative-of-unwrapped-phase' if 'derivative' in msg else 'shapes-and-phase-range'
+                emit.violation('%s:%s:record-length-%d' % (cl, method, n), w, msg)
+    for c in (2.0, 3.0):
+        emit.case(('norm-int', c), contract='amplitude_normalise')
+        ok, msg = replay({'kind': 'normalise', 'c': c, 'dtype': 'int64'})
+        if ok:
+            emit.violation('amplitude-normalise-scale-free:int64-input', {'kind': 'normalise', 'c': c, 'dtype': 'int64'}, msg)
+    emit.scope('scale factors 2^k (k in -6..6), 3.7, 2^-40, 2^30 and 1e-13: phase and frequency unchanged, amplitude scales, for the three methods; sets of 2-4 IMFs (amplitude-modulated carriers first, then sinusoids): every column as when transformed alone, rescaling one column changes no phase / frequency; amplitude_normalise invariant')
+    for method in ('hilbert', 'nht', 'quad'):
+        for c in [2.0 ** k for k in (-6, -1, 1, 6)] + [3.7, 2.0 ** -40, 2.0 ** 30, 1e-13]:       # (also recordings in SI units: Tesla, Volt)
             emit.case(('scale', method, c), contract='frequency_transform')
             w = {'kind': 'scale', 'method': method, 'sr': 256, 'c': c}
             ok, msg = replay(w)
@@ -613,7 +668,7 @@ def refute(tier, seed, emit):
                 ok, msg = replay(w)
                 if ok:
                     emit.violation('columns-of-a-set-are-transformed-independently:%s' % method, w, msg)
-    for c in (0.25, 2.0, 37.5):
+    for c in (0.25, 2.0, 37.5, 2.0 ** -40, 1e-13, 2.0 ** 30):
         emit.case(('norm', c), contract='amplitude_normalise')
         ok, msg = replay({'kind': 'normalise', 'c': c})
         if ok:
